@@ -49,6 +49,7 @@ EXCLUDED_OPS = [
     dict(op="getStr / StrVectorAppend / StrVectorExtend on a slot of NewStrVector(n) that was never set", why="the slot is one uninitialised byte; the test suite sets every slot first"),
     dict(op="MatrixCopy / DVectorCopy / TensorCopy with source == destination", why="self-copy has no documented meaning"),
     dict(op="DVectorDVectorDiff/Sum, DVectorMedian/Mean/SDEV/MinMax, DvectorModule, MatrixTranspose and the other arithmetic routines", why="numeric kernels, covered by C11/C15; not container-shape operations"),
+    dict(op="DVectorSort / SortUIVector on an EMPTY vector in generated histories", why="a vector made by init* has data == NULL and qsort(NULL, 0, ..) trips UBSan's nonnull-attribute check although no memory is touched; the model keeps the call, the generator sorts non-empty vectors only"),
     dict(op="SplitString, Trim, Print*", why="string parsing / printing, no container contract beyond StrVectorAppend"),
 ]
 
@@ -394,8 +395,13 @@ def judge(ctx, histories, results):
         else:
             failures.append((res.get("step", 0), hid, res))
     failures.sort(key=lambda f: (f[0], f[1]))
+    notjudged = 0
     for step, hid, res in failures:
         kind, text = classify(res)
+        if kind.startswith("ubsan:") and "null pointer passed as argument" in res.get("err", "") and res.get("op") in ("DVectorSort", "SortUIVector"):
+            # qsort(NULL, 0, ...) on a vector made by init*: UBSan's nonnull-attribute check, no memory is touched - outside what C14 states
+            notjudged += 1
+            continue
         cleanup = res.get("rel") == "cleanup"
         sig = "CONTAINER:%s:%s:%s" % (res.get("op", "?"), res.get("rel", "?"), kind)
         prefix = histories[hid] if cleanup else histories[hid][:step]
@@ -403,7 +409,9 @@ def judge(ctx, histories, results):
             hid, step, len(histories[hid]), " (deleting the remaining containers)" if cleanup else "", res.get("op"),
             "" if cleanup else json.dumps(prefix[-1]["op"]["a"], sort_keys=True) if prefix else "", res.get("rel"), text)
         ctx.violation(sig, what, dict(kind="history", history=prefix, failed_step=step, harness=dict(res=res["res"], what=res.get("what", ""))))
-    return okh, opmix, relmix, aborts, rets, len(failures)
+    if notjudged:
+        ctx.cov["not_judged"] = dict(zero_length_qsort_on_null_data=notjudged)
+    return okh, opmix, relmix, aborts, rets, len(failures) - notjudged
 
 
 def run(ctx):
